@@ -9,6 +9,7 @@ import (
 
 	"pgregory.net/rapid"
 
+	bcreactor "github.com/kardiachain/go-kardia/blockchain"
 	"github.com/kardiachain/go-kardia/configs"
 	"github.com/kardiachain/go-kardia/consensus"
 	"github.com/kardiachain/go-kardia/lib/crypto"
@@ -85,10 +86,20 @@ func (p *bridgePeer) FlushStop() { _ = p.Stop() }
 type rnode struct {
 	nd   *netsim.Node
 	conR *consensus.ConsensusManager
+	bcR  *bcreactor.BlockchainReactor
 	sw   *p2p.Switch
 }
 
-func realSwitch(r p2p.Reactor) *p2p.Switch {
+// receive routes a message the way the switch does: by channel to the reactor that registered it.
+func (rn *rnode) receive(ch byte, src p2p.Peer, b []byte) {
+	if ch == bcreactor.BlockchainChannel {
+		rn.bcR.Receive(ch, src, b)
+		return
+	}
+	rn.conR.Receive(ch, src, b)
+}
+
+func realSwitch(r p2p.Reactor, bc p2p.Reactor) *p2p.Switch {
 	priv, err := crypto.GenerateKey()
 	if err != nil {
 		panic(err)
@@ -98,6 +109,7 @@ func realSwitch(r p2p.Reactor) *p2p.Switch {
 	ni := p2p.DefaultNodeInfo{DefaultNodeID: nk.ID(), ListenAddr: "127.0.0.1:26656", Network: "verif", Version: "1.0.0", Moniker: "n"}
 	sw := p2p.NewSwitch(cfg, p2p.NewMultiplexTransport(ni, nk, p2p.MConnConfig(cfg)))
 	sw.SetLogger(log.New())
+	sw.AddReactor("BLOCKCHAIN", bc)
 	sw.AddReactor("CONSENSUS", r)
 	return sw
 }
@@ -138,6 +150,7 @@ func TestRealReactors(t *testing.T) {
 			for i := range nodes {
 				if rn := nodeAt(i); rn != nil && rn.conR != nil {
 					_ = rn.conR.Stop()
+					_ = rn.bcR.Stop()
 				}
 			}
 			wg.Wait()
@@ -148,15 +161,26 @@ func TestRealReactors(t *testing.T) {
 			}
 		}
 		defer cleanup()
-		boot := func(i int, o netsim.NodeOpts) *rnode {
+		boot := func(i int, o netsim.NodeOpts, fastSync bool) *rnode {
 			o.RealTicker, o.Cache = true, cache()
 			nd, err := netsim.NewNode(i, g, keys[i], o)
 			if err != nil {
 				t.Fatalf("harness: %v", err)
 			}
-			conR := consensus.NewConsensusManager(nd.CS, &configs.FastSyncConfig{Enable: false})
+			// as mainchain/backend.go wires them: one fast-sync configuration for the block-sync reactor and the
+			// consensus reactor (which then waits for the switch-over)
+			fs := &configs.FastSyncConfig{ServiceName: "BCR", Enable: fastSync, MaxPeers: 10, TargetPending: 10, SyncTimeout: 10 * time.Second, PeerTimeout: 5 * time.Second}
+			conR := consensus.NewConsensusManager(nd.CS, fs)
 			conR.SetLogger(log.New())
-			return &rnode{nd: nd, conR: conR, sw: realSwitch(conR)}
+			bcR := bcreactor.NewBlockchainReactor(nd.CS.VerifState(), nd.Exec, nd.BOps, fs)
+			bcR.SetLogger(log.New())
+			return &rnode{nd: nd, conR: conR, bcR: bcR, sw: realSwitch(conR, bcR)}
+		}
+		startNode := func(rn *rnode) error {
+			if err := rn.bcR.Start(); err != nil {
+				return err
+			}
+			return rn.conR.Start()
 		}
 		// link makes the two peer objects of the pair (i, j) and their pumps, and introduces them to the reactors
 		link := func(i, j int, holdIJ, holdJI time.Duration) {
@@ -186,7 +210,7 @@ func TestRealReactors(t *testing.T) {
 									recvPanics.Store(fmt.Sprintf("Receive on node %d panicked: %v", to, r))
 								}
 							}()
-							nodeAt(to).conR.Receive(w.ch, back, w.b)
+							nodeAt(to).receive(w.ch, back, w.b)
 						}()
 					}
 				}
@@ -202,15 +226,38 @@ func TestRealReactors(t *testing.T) {
 			wg.Add(2)
 			go pump(pij, pji, j) // what node i sends to "j" arrives at node j from "i"
 			go pump(pji, pij, i)
+			ni.bcR.AddPeer(pij)
+			nj.bcR.AddPeer(pji)
 			ni.conR.AddPeer(pij)
 			nj.conR.AddPeer(pji)
 		}
+		// optionally one validator joins late: the others (who hold +2/3 without it) run ahead, then it starts with an
+		// empty database in fast-sync mode, fetches the chain through the product's block-sync reactor, switches over to
+		// consensus and has to keep up from there
+		joiner, joinAt, joined := -1, uint64(0), false
+		if n >= 3 && rapid.IntRange(0, 2).Draw(t, "latejoin") == 0 {
+			cand := rapid.IntRange(0, n-1).Draw(t, "joiner")
+			var total int64
+			for _, p := range powers {
+				total += p
+			}
+			if (total-powers[cand])*3 > total*2 {
+				joiner, joinAt = cand, uint64(rapid.IntRange(2, 5).Draw(t, "joinat"))
+				text += fmt.Sprintf(" node %d joins by block sync once the others are at height %d;", joiner, joinAt)
+			}
+		}
 		for i := 0; i < n; i++ {
-			nodes[i] = boot(i, netsim.NodeOpts{WAL: netsim.NewMemWAL(nil)})
+			if i == joiner {
+				continue
+			}
+			nodes[i] = boot(i, netsim.NodeOpts{WAL: netsim.NewMemWAL(nil)}, false)
 		}
 		for i := range nodes {
-			if err := nodes[i].conR.Start(); err != nil {
-				t.Fatalf("harness: reactor %d: %v", i, err)
+			if nodes[i] == nil {
+				continue
+			}
+			if err := startNode(nodes[i]); err != nil {
+				t.Fatalf("harness: node %d: %v", i, err)
 			}
 		}
 		slow := 0
@@ -225,42 +272,68 @@ func TestRealReactors(t *testing.T) {
 		}
 		for i := 0; i < n; i++ {
 			for j := i + 1; j < n; j++ {
-				link(i, j, drawHold(i, j), drawHold(j, i))
+				if i != joiner && j != joiner {
+					link(i, j, drawHold(i, j), drawHold(j, i))
+				}
 			}
 		}
+		if joiner >= 0 {
+			target += joinAt // it has to catch up and then keep up for a few heights
+		}
+
 		// optionally one node is stopped and started again on its own database and log while the others go on
 		restartNode, restartAfter, restarted := -1, time.Duration(0), false
 		if rapid.Bool().Draw(t, "restart") {
 			restartNode = rapid.IntRange(0, n-1).Draw(t, "restartnode")
+			if restartNode == joiner {
+				restartNode = (restartNode + 1) % n
+			}
 			restartAfter = time.Duration(rapid.SampledFrom([]int{30, 150, 600}).Draw(t, "restartafter")) * time.Millisecond
 			text += fmt.Sprintf(" node %d restarts after %v;", restartNode, restartAfter)
 		}
 		doRestart := func(k int) {
 			old := nodeAt(k)
 			for j := 0; j < n; j++ {
-				if j == k {
+				if j == k || peers[k][j] == nil || nodeAt(j) == nil {
 					continue
 				}
 				peers[k][j].down()
 				peers[j][k].down()
 				nodeAt(j).conR.RemovePeer(peers[j][k], "peer restarts")
+				nodeAt(j).bcR.RemovePeer(peers[j][k], "peer restarts")
 			}
 			_ = old.conR.Stop()
+			_ = old.bcR.Stop()
 			var img []byte
 			if mw, ok := old.nd.CS.VerifWAL().(*netsim.MemWAL); ok {
 				img = mw.Image("all")
 			}
 			old.nd.Close()
-			nw := boot(k, netsim.NodeOpts{DB: old.nd.DB, WAL: netsim.NewMemWALFrom(img, nil)})
+			nw := boot(k, netsim.NodeOpts{DB: old.nd.DB, WAL: netsim.NewMemWALFrom(img, nil)}, false)
 			mu.Lock()
 			nodes[k] = nw
 			mu.Unlock()
-			if err := nw.conR.Start(); err != nil {
+			if err := startNode(nw); err != nil {
 				ev.Violation(t, "realnet.restart-failed", text, "node %d could not be started again on its own database and log: %v", k, err)
 				return
 			}
 			for j := 0; j < n; j++ {
-				if j != k {
+				if j != k && nodeAt(j) != nil {
+					link(k, j, 0, 0)
+				}
+			}
+		}
+		doJoin := func(k int) {
+			nw := boot(k, netsim.NodeOpts{WAL: netsim.NewMemWAL(nil)}, true)
+			mu.Lock()
+			nodes[k] = nw
+			mu.Unlock()
+			if err := startNode(nw); err != nil {
+				ev.Violation(t, "realnet.join-failed", text, "node %d could not be started in fast-sync mode: %v", k, err)
+				return
+			}
+			for j := 0; j < n; j++ {
+				if j != k && nodeAt(j) != nil {
 					link(k, j, 0, 0)
 				}
 			}
@@ -286,8 +359,31 @@ func TestRealReactors(t *testing.T) {
 			}
 			fp := ""
 			minH := uint64(1 << 62)
+			if joiner >= 0 && !joined {
+				others := uint64(1 << 62)
+				for i := range nodes {
+					if rn := nodeAt(i); rn != nil {
+						if h := rn.nd.BOps.Height(); h < others {
+							others = h
+						}
+					}
+				}
+				if others >= joinAt {
+					joined = true
+					msg, frame := ev.Try(func() { doJoin(joiner) })
+					if msg != "" {
+						ev.Violation(t, "panic:"+frame, text, "start of the late joiner panicked: %s", msg)
+						return
+					}
+					lastChange[joiner] = time.Now()
+				}
+			}
 			for i := range nodes {
 				rn := nodeAt(i)
+				if rn == nil {
+					lastChange[i] = time.Now() // not there yet
+					continue
+				}
 				rs := rn.nd.CS.GetRoundState()
 				fp += fmt.Sprintf("%d/%d/%d ", rs.Height, rs.Round, rs.Step)
 				h := rn.nd.BOps.Height()
@@ -301,7 +397,7 @@ func TestRealReactors(t *testing.T) {
 					maxRound = rs.Round
 				}
 			}
-			if minH >= target && (restartNode < 0 || restarted) {
+			if minH >= target && (restartNode < 0 || restarted) && (joiner < 0 || joined) {
 				break
 			}
 			for i := range nodes {
@@ -343,12 +439,15 @@ func TestRealReactors(t *testing.T) {
 				}
 			}
 		}
-		ev.Case((slow > 0 || restarted) && n >= 3, text, "real-reactors", fmt.Sprintf("real-reactors:n=%d", n))
+		ev.Case((slow > 0 || restarted || joined) && n >= 3, text, "real-reactors", fmt.Sprintf("real-reactors:n=%d", n))
 		if maxRound > 1 {
 			ev.Class("real-reactors:some-height-needed-more-than-one-round")
 		}
 		if restarted {
 			ev.Class("real-reactors:node-restarted")
+		}
+		if joined {
+			ev.Class("real-reactors:late-joiner-synced-and-switched-to-consensus")
 		}
 	})
 }
